@@ -5,6 +5,7 @@ irrelevance class (documented-irrelevant transformations alone and composed); ou
 strings. Plus: normalize_url(u) == normalize_url(infer_redirection(u), infer_redirection=False).
 """
 import copy
+import re
 import itertools
 
 from vf.monitor import Probes
@@ -293,6 +294,9 @@ def platform_variants(u, rng):
     sep = "&" if "?" in u else "?"
     if host.lower().endswith("facebook.com"):
         out += [("tracking", u + sep + "_rdr=1"), ("tracking", u + sep + "_rdc=2&_rdr")]
+    if host.lower().endswith("youtube.com") and "?" in u:
+        head, _, q = u.partition("?")
+        out += [("tracking", head + "?utm_v=XXXXXXXXXXX&" + q), ("tracking", head + "?utm_playlist=PLzz&" + q + "&utm_list=PLyy")]  # items whose key merely ENDS like a youtube key
     if host.lower().endswith("youtube.com"):  # the per-domain items are documented for youtube.com hosts only (not youtu.be)
         out += [("tracking", u + sep + "si=abc"), ("tracking", u + sep + "ab_channel=x&cbrd=1&ucbcb=1")]
     return out
@@ -372,7 +376,8 @@ def run(ctx):
             for oname, opts in OPTSETS:
                 a = norm(fn, u, opts)
                 try:
-                    r = infer_redirection(u)
+                    # (the documented cleaning - controls dropped, surrounding whitespace stripped - comes before anything else)
+                    r = infer_redirection(re.sub(r"[\x00-\x1f\x7f-\x9f]", "", u).strip())
                 except Exception as e:
                     ctx.viol("C04:exception:infer_redirection:" + ctx.exc("infer_redirection", e), {"url": u})
                     return
